@@ -6,8 +6,11 @@ EXTENDS Naturals, Sequences, FiniteSets, TLC, Json
 CONSTANTS Family, Depth
 
 (* a, b: adjacent /10s (aggregate to one range); r9: both /9s, r11: all eight /11s of the /8 -   *)
-(* after aggregation r9 and r11 are two route-filters with the SAME address and different ranges *)
-A4 == {"a", "b", "r9", "r11"}
+(* after aggregation r9 and r11 are two route-filters with the SAME address and different ranges;  *)
+(* h11: the four /11s of the lower /9 - aggregated, 10.0.0.0/9^11-11, which has the same address   *)
+(* and the same length range as r11 (10.0.0.0/8^11-11) and differs from it only in the length of  *)
+(* the covering prefix (h11 together with r11 is r11)                                              *)
+A4 == {"a", "b", "r9", "r11", "h11"}
 A6 == {"c"}
 Targets == {[v4 |-> s4, v6 |-> s6] : s4 \in SUBSET A4, s6 \in SUBSET A6}
 (* status of one policy in one run: not marked as managed any more, or marked with a target *)
